@@ -5,6 +5,8 @@ from __future__ import annotations
 import random
 from fractions import Fraction
 
+import pint
+import pint.util
 from pint.errors import DimensionalityError, OffsetUnitCalculusError
 
 from .. import covers, regs
@@ -157,6 +159,26 @@ def h_pair(eng, u, v, w):
     for sn, mk in sources.items():
         qs = mk()
         eng.prove(Eq(qs.to(v).magnitude, want), f"source-as-{sn}")
+    # unit specifications given as Quantity objects: only their units count, whatever their
+    # magnitudes (also when the two quantities happen to be physically equal)
+    k_eq = iu.num / iv.num  # 1 u == k_eq v
+    eng.prove(Eq(ureg.convert(x, ureg.Quantity(1, u), ureg.Quantity(k_eq, v)), want), "convert-specs-as-equal-quantities")
+    eng.prove(Eq(ureg.convert(x, ureg.Quantity(5, u), ureg.Quantity(7, v)), want), "convert-specs-as-quantities")
+    eng.prove(Eq(ureg.convert(x, ureg.Unit(u), ureg.Quantity(k_eq, v)), want), "convert-specs-unit-and-equal-quantity")
+    eng.prove(Eq(q.to(ureg.Quantity(k_eq, v)).magnitude, want), "to-equal-quantity")
+    # exponents that are integral in value but not in type (2.0, Fraction(2)): same exact factor,
+    # and nothing inexact is left behind for the cleanly written units
+    for etag, ee in (("float", 2.0), ("Fraction", Fraction(2)), ("registry-type", eng.num(2))):
+        # (the source is written cleanly: a float-typed exponent on the source side makes the
+        # factor a float in a Fraction registry by itself)
+        dst2 = ureg.Unit(v) ** ee
+        r2 = ureg.Quantity(x, f"{u}**2").to(dst2)
+        eng.prove(Eq(r2.magnitude, x * (iu.num / iv.num) ** 2), f"exponent-typed-{etag}:factor")
+        eng.prove(not isinstance(r2.magnitude, float) and not getattr(r2.magnitude, "inexact", False), f"exponent-typed-{etag}:stays-exact")
+        r3 = ureg.Quantity(x, f"{u}**2").to(f"{v}**2")
+        eng.prove(Eq(r3.magnitude, x * (iu.num / iv.num) ** 2), f"exponent-typed-{etag}:clean-units-afterwards")
+        eng.prove(not isinstance(r3.magnitude, float) and not getattr(r3.magnitude, "inexact", False), f"exponent-typed-{etag}:clean-units-afterwards-exact")
+        eng.prove(Eq(ureg.convert(x, ureg.UnitsContainer({u: 2}), pint.util.UnitsContainer({v: ee})), x * (iu.num / iv.num) ** 2), f"exponent-typed-{etag}:bare-container")
     # registry.convert on arrays: inplace=True rewrites the given array, inplace=False leaves it
     import numpy as np
 
